@@ -19,7 +19,10 @@ use num_traits::float::Float;
 use num_traits::identities::Zero;
 use std::fmt::Debug;
 use std::mem;
+#[cfg(not(rs_opw_kinematics_verif))]
 use std::sync::atomic::{AtomicBool, Ordering};
+#[cfg(rs_opw_kinematics_verif)]
+use shuttle::sync::atomic::{AtomicBool, Ordering};
 use tracing::debug;
 
 #[derive(Debug)]
